@@ -183,7 +183,7 @@ Section Inv.
     - intros u a' i p n H. apply (i_pend0 u); apply PV; exact H.
     - intros u a' i p n H. apply (i_pend_conv0 u a' i p). rewrite <- PH. exact H.
     - intros u a' i p n H. apply (i_pend_stored0 u a' i p). rewrite <- PH. exact H.
-    - intros u u' a1 i1 p1 n1 a2 i2 p2 n2 Hne H1 H2. eapply i_pend_uniq0; [exact Hne|apply PV; exact H1|apply PV; exact H2].
+    - intros u u' a1 i1 p1 n1 a2 i2 p2 n2 Hne H1 H2. eapply (i_pend_uniq0 u u'); [exact Hne|apply PV; exact H1|apply PV; exact H2].
     - intros n Hn Hnp. apply i_unlinked0; [exact Hn|]. intros u a' i p Hpd. apply (Hnp u a' i p).
       cbn. destruct (Nat.eqb_spec u t) as [->|]; [apply pending_know|]; exact Hpd.
     - intros u. cbn. destruct (Nat.eqb_spec u t) as [->|]; [cbn; exact Hp|apply i_known0].
@@ -255,9 +255,8 @@ Section Inv.
       + inversion H1; subst. lia.
       + eapply i_arrslot0; eauto.
     - intros u a0 i0 p0 n0 H. destruct (Nat.eq_dec u t) as [->|Hu].
-      + apply PT in H. inversion H; subst a0 i0 p0 n0. rewrite set_slot_same. repeat split; auto.
-        * unfold n. destruct i_head0. lia.
-        * congruence.
+      + apply PT in H. inversion H; subst a0 i0 p0 n0. rewrite set_slot_same.
+        destruct i_head0 as [_ Hn1]. repeat split; auto; try (unfold n; lia); try congruence; try (unfold A'; cbn; congruence).
       + apply PO in H; [|exact Hu]. destruct (OLD _ _ _ _ _ H) as (_ & Hlt & Hne).
         destruct (i_pend0 u a0 i0 p0 n0 H) as (H1 & H2 & H3 & H4 & H5 & H6). repeat split; auto.
         rewrite set_slot_other; [exact H1|exact Hne].
@@ -282,7 +281,7 @@ Section Inv.
         split; [unfold n in *; lia|congruence].
       + apply PT in H2. inversion H2; subst. apply PO in H1; [|exact Hu]. destruct (OLD _ _ _ _ _ H1) as (_ & Hlt & Hn1).
         split; [unfold n in *; lia|exact Hn1].
-      + apply PO in H1; [|exact Hu]. apply PO in H2; [|exact Hu']. eapply i_pend_uniq0; eauto.
+      + apply PO in H1; [|exact Hu]. apply PO in H2; [|exact Hu']. eapply (i_pend_uniq0 u u'); eauto.
     - intros n0 Hn0 Hnp j.
       assert (n0 <> n).
       { intros ->. apply (Hnp t a i p). left. unfold A'; cbn. rewrite Nat.eqb_refl. reflexivity. }
